@@ -19,6 +19,12 @@ def hx(s):
     return s.encode().hex() if s else "-"
 
 
+def start_line(lp):
+    """a third of the problems are built rows first, columns through QSadd_col: the structural columns then do not occupy the first
+    matrix columns (structmap is not the identity), as for every problem a user builds that way or copies"""
+    return ("newcg 0 " if gen.hash_str(lp.line()) % 3 == 1 else "new 0 ") + lp.line()
+
+
 def shape_lp(rng, nc, nr):
     """LP whose only purpose is its shape: some free columns, some ranged rows"""
     cols = []
@@ -95,7 +101,7 @@ def run(pid, tier, seed):
     groups = []
     for k, (lp, cs, rs, kind) in enumerate(cases):
         f = hx("b%d.bas" % (k % 7))
-        groups.append(["new 0 " + lp.line(), "writebasis 0 %s %s %s" % (cs or "-", rs or "-", f), "readbasis 0 " + f])
+        groups.append([start_line(lp), "writebasis 0 %s %s %s" % (cs or "-", rs or "-", f), "readbasis 0 " + f])
     per = max(1, len(groups) // (build.NCPU * 2))
     batches = [sum(groups[i:i + per], []) for i in range(0, len(groups), per)]
     idx = [list(range(i, min(i + per, len(groups)))) for i in range(0, len(groups), per)]
@@ -151,7 +157,7 @@ def run(pid, tier, seed):
     groups = []
     for lp in fam:
         f = hx("own.bas")
-        groups.append(["new 0 " + lp.line(), "solve 0 dual", "getbasis 0", "writebasis 0 own " + f, "getbasis 0", "state 0",
+        groups.append([start_line(lp), "solve 0 dual", "getbasis 0", "writebasis 0 own " + f, "getbasis 0", "state 0",
                        "readbasis 0 " + f, "solve 0 dual", "writebasis 0 own " + f, "getbasis 0"])
     per = max(1, len(groups) // build.NCPU)
     batches = [sum(groups[i:i + per], []) for i in range(0, len(groups), per)]
@@ -191,10 +197,10 @@ def run(pid, tier, seed):
         # a valid basis different from the optimal one: the slack basis
         cs0 = "".join("3" if (c[1] == NINF and c[2] == INF) else ("0" if c[1] != NINF else "2") for c in lp.cols)
         f = hx("l.bas")
-        jobs2.append(("loaded", lp, ["new 0 " + lp.line(), "solve 0 dual", "loadbasis 0 %s %s" % (cs0, "1" * nr), "getbasis 0",
+        jobs2.append(("loaded", lp, [start_line(lp), "solve 0 dual", "loadbasis 0 %s %s" % (cs0, "1" * nr), "getbasis 0",
                                       "writebasis 0 own " + f, "getbasis 0", "readbasis 0 " + f]))
         j = r2.below(nc - 1)
-        jobs2.append(("deleted-column", lp, ["new 0 " + lp.line(), "delcol 0 %d" % j, "solve 0 dual", "getbasis 0", "writebasis 0 own " + f,
+        jobs2.append(("deleted-column", lp, [start_line(lp), "delcol 0 %d" % j, "solve 0 dual", "getbasis 0", "writebasis 0 own " + f,
                                               "readbasis 0 " + f, "loadbasis 0 %s %s" % (cs0[:j] + cs0[j + 1:], "1" * nr), "getbasis 0",
                                               "writebasis 0 own " + f, "readbasis 0 " + f]))
     from concurrent.futures import ThreadPoolExecutor
